@@ -289,7 +289,27 @@ def c12(tier, seed):
     return r
 
 
+def c07(tier, seed):
+    r = Result("exploration",
+               "37 generic definitions: one type parameter used in 16 ways (bare, Option, Vec, tuple, map value, argument of another generic (also nested), inlined generic field, flattened generic field, #[ts(inline)] / #[ts(flatten)] / #[ts(optional)] / #[ts(as)] directly on a parameter-typed field, several uses, PhantomData), newtype/tuple structs, enums in 4 representations, 4 parameter defaults (+ a default naming another parameter), 2 and 3 parameters, parameter names colliding with built-ins, lifetimes and const parameters interleaved, bounds and where clauses, concrete(..) on every subset of two parameters; x all 9 arguments {i32, String, (), Option<u64>, Vec<St>, St, En, Gp<St>, Gp<Gp<i32>>} (all 81 pairs for two parameters, a covering set for three). Oracle: decl() identical for all arguments; swc-parsed parameter list == non-concretised parameters in order with expected defaults; no unbound name; name() == ident<names of arguments>; the generic declaration instantiated at the arguments is equivalent (witness enumeration both ways) to the instantiation's inline()/decl_concrete(). distinct = distinct definitions",
+               "exhaustive enumeration of generic definitions x argument tuples; string identity plus model-based equivalence with distinguishing witnesses")
+    _e2("generic", tier, "C07", r)
+    r.assumptions = ["const arguments are held fixed (an array length has no TypeScript parameter)", "equivalence is decided on all witnesses up to the tsmodel bounds; a report always carries a distinguishing JSON value"]
+    return r
+
+
+def c14(tier, seed):
+    r = Result("exploration",
+               "27 field types (primitives, containers of user types, structs, enums of every representation, generic instantiations, types that themselves contain inlined/flattened fields, containers of those) x positions {named field with 0/1/2 siblings, newtype, tuple field, newtype/struct/tuple payload of enum variants under 4 representations}: the presentations by-name / inline / flatten (object-like types) / as-same-type; `as = U` for 7 (field type, U) pairs incl. `_` placeholders and field types without a TS impl, on struct fields, tuple fields, newtype and struct variants; container- and variant-level `as` for 6 U. Oracle: inline ≡ by-name and flatten ≡ {siblings} & F (equivalence by witness enumeration both ways, violations carry a distinguishing JSON value); `as` presentations string-equal to the declaration with the field typed U (and equal dependency sets); decl() == `type X = ` + inline(). distinct = distinct cases",
+               "exhaustive enumeration of types x positions x presentations; model-based equivalence with distinguishing witnesses and string identity")
+    _e2("present", tier, "C14", r)
+    r.assumptions = ["tsmodel's intersection is TypeScript's for exact objects (merge properties, distribute over unions, object & non-object = never)"]
+    return r
+
+
 CHECKS = {
+    "C07": c07,
+    "C14": c14,
     "C12": c12,
     "C01": c01,
     "C02": c02,
